@@ -152,6 +152,8 @@ def fit_conventions(c):
         out.append('full32')
     if wones or allfree or fixed_zero:
         out.append('minimal64')
+    if all(a[1] == 1 for a in c['ians']):
+        out.append('intans64')
     return out
 
 
@@ -164,6 +166,11 @@ def call_fit(c, conv):
     ia = np.array([bool(b) for b in c['ia']], dtype=bool)
     ians = np.array([fl(v) for v in c['ians']], dtype=dt)
     name = ALIAS[c['basis']] if conv == 'alias64' else c['basis']
+    if conv == 'alias64':          # zeros (prescribed values, weights) written as -0.0
+        ians = np.where(ians == 0, -0.0, ians)
+        w = np.where(w == 0, -0.0, w)
+    if conv == 'intans64':         # prescribed values as an integer array (0 is the integer 0)
+        ians = np.array([int(fq(v)) for v in c['ians']], dtype=np.int64)
     kw = {'invvar': w, 'ia': ia, 'inputans': ians, 'function_name': name}
     if conv == 'minimal64':
         if all(v == (1, 1) for v in c['w']):
@@ -281,9 +288,28 @@ def fits_rec(basis, xmin, xmax, coeff, jump=None):
     return fits.BinTableHDU.from_columns(cols).data
 
 
+def has_zero_keyword(c):
+    j = c['jump']
+    vals = ([c['xmin']] if c['gmin'] else []) + ([c['xmax']] if c['gmax'] else []) + \
+        ([j['lo'], j['hi'], j['val']] if j['on'] else [])
+    return any(v == (0, 1) for v in vals)
+
+
 def tset_conventions(c):
     zero = any(w == (0, 1) for row in c['w'] for w in row)
-    return ['xy2traceset-invvar', 'TraceSet-inmask' if zero else 'TraceSet-plain', 'fits']
+    out = ['xy2traceset-invvar', 'TraceSet-inmask' if zero else 'TraceSet-plain', 'fits']
+    if has_zero_keyword(c) or zero:
+        out.append('xy2traceset-negzero')
+    return out
+
+
+def number_form(v, conv):
+    """The same number in the forms a caller may write it: 0.0 (float), 0 (Python int, when integral), -0.0."""
+    if conv == 'xy2traceset-negzero' and v == (0, 1):
+        return -0.0
+    if conv.startswith('TraceSet-') and v[1] == 1:
+        return int(v[0])
+    return fl(v)
 
 
 def build_tset(c, exp, conv):
@@ -292,23 +318,25 @@ def build_tset(c, exp, conv):
     ypos = mat(c['ypos'])
     w = mat(c['w'])
     j = c['jump']
-    jump = (fl(j['lo']), fl(j['hi']), fl(j['val'])) if j['on'] else None
     if conv == 'fits':
+        jump = (fl(j['lo']), fl(j['hi']), fl(j['val'])) if j['on'] else None
         return TraceSet(fits_rec(c['basis'], fl(exp['xmin']), fl(exp['xmax']), mat(exp['coeff']), jump)), xpos
     kw = {'func': c['basis'], 'ncoeff': int(c['nc'])}
-    if c['given']:
-        kw['xmin'] = fl(c['xmin'])
-        kw['xmax'] = fl(c['xmax'])
-    if jump:
-        kw['xjumplo'], kw['xjumphi'], kw['xjumpval'] = jump
+    if c['gmin']:
+        kw['xmin'] = number_form(c['xmin'], conv)
+    if c['gmax']:
+        kw['xmax'] = number_form(c['xmax'], conv)
+    if j['on']:
+        kw['xjumplo'], kw['xjumphi'], kw['xjumpval'] = [number_form(j[k], conv) for k in ('lo', 'hi', 'val')]
     if conv == 'xy2traceset-invvar':
         kw['invvar'] = w
         return xy2traceset(xpos, ypos, **kw), xpos
-    # this convention passes integral jump parameters as Python ints (xjumplo=0 rather than 0.0)
-    if jump:
-        for nme, v in zip(('xjumplo', 'xjumphi', 'xjumpval'), (j['lo'], j['hi'], j['val'])):
-            if v[1] == 1:
-                kw[nme] = int(v[0])
+    if conv == 'xy2traceset-negzero':
+        # zeros written as -0.0 everywhere: keywords, zero weights, zero positions; no rejection iterations
+        kw['invvar'] = np.where(w == 0, -0.0, w)
+        kw['maxiter'] = 0
+        xpos = np.where(xpos == 0, -0.0, xpos)
+        return xy2traceset(xpos, ypos, **kw), xpos
     # the zero-weight points go through inmask, the other weights (if not all one) through invvar
     if conv == 'TraceSet-inmask':
         kw['inmask'] = w > 0
@@ -393,9 +421,10 @@ def check_tset(ctx, c, exp):
         if what:
             j = c['jump']
             report(ctx, ('tset', c['basis'], conv, bool(j['on']), what.split(':')[0].split('[')[0]), {
-                'what': 'trace set %s nc=%d nTrace=%d jump=%s given=%s [%s]: %s' % (
+                'what': 'trace set %s nc=%d nTrace=%d jump=%s xmin=%s xmax=%s [%s]: %s' % (
                 c['basis'], c['nc'], len(c['xpos']),
-                (str(fq(j['lo'])), str(fq(j['hi'])), str(fq(j['val']))) if j['on'] else None, c['given'], conv, what),
+                (str(fq(j['lo'])), str(fq(j['hi'])), str(fq(j['val']))) if j['on'] else None,
+                str(fq(c['xmin'])) if c['gmin'] else None, str(fq(c['xmax'])) if c['gmax'] else None, conv, what),
                 'part': 'tset', 'conv': conv, 'call': jsonable(c), 'expected': jsonable(exp)})
     return n
 
@@ -549,6 +578,12 @@ def fit_records(rng, n):
         wa = np.array([float(v) for v in w])
         iaa = np.ones(nc, dtype=bool)
         ansa = np.array([float(v) for v in ians])
+        form = rng.choice(['plain', 'plain', 'negzero', 'intans'])
+        if form == 'negzero':          # zeros (prescribed values, weights) written as -0.0
+            ansa = np.where(ansa == 0, -0.0, ansa)
+            wa = np.where(wa == 0, -0.0, wa)
+        elif form == 'intans':         # prescribed values as an integer array
+            ansa = np.array([int(v) for v in ians], dtype=np.int64)
         hist += 1
         for call, mk in enumerate(masks):
             iaa[:] = mk
@@ -651,6 +686,57 @@ def tseval_records(rng, n):
                      'xp': [[rq(v) for v in r] for r in xp], 'vals': vals, 'grid': gs, 'gi': gi, 'gvals': gvals,
                      'tol': TOLU64, 'exc': exc})
         recs.append(unchanged(snap, 'traceset2xy', basis=basis, nc=nc))
+    return recs
+
+
+def limits_records(rng, n):
+    """Trace sets fitted to positions with the xmin / xmax keywords absent, zero (0, 0.0, -0.0), negative or positive -
+    always different from what the positions alone would give; the specification says what xmin, xmax and the default
+    grid must be."""
+    from pydl.pydlutils.trace import TraceSet, traceset2xy, xy2traceset
+    recs = []
+    for it in range(n):
+        a = rng.choice([-60, -12, -3, 0, 2, 40])
+        b = a + rng.randint(6, 20)
+        nt = rng.randint(1, 3)
+        xpos = np.tile(np.arange(a, b + 1, dtype=np.float64), (nt, 1))
+        dmin, dmax = F(a), F(b)
+        if nt > 1 and rng.random() < 0.5:
+            xpos[1, :] += 0.5
+            dmax = F(b) + F(1, 2)
+        ypos = 3.0 + 0.01 * xpos + 1e-4 * xpos ** 2
+        cmin = [None, dmin - 1, dmin - F(1, 4), dmin - 7]
+        if dmin > 0:
+            cmin += [F(0), F(0), F(0)]
+        cmax = [None, dmax + 1, dmax + F(3, 4), dmax + 7]
+        if dmax < 0:
+            cmax += [F(0), F(0), F(0)]
+        xmin, xmax = rng.choice(cmin), rng.choice(cmax)
+        zform = rng.choice(['float', 'int', 'negzero'])
+
+        def form(v):
+            if v == 0:
+                return {'float': 0.0, 'int': 0, 'negzero': -0.0}[zform]
+            return int(v) if (v.denominator == 1 and zform == 'int') else float(v)
+        kw = {'ncoeff': rng.randint(1, 3), 'func': rng.choice(['legendre', 'chebyshev', 'poly'])}
+        if xmin is not None:
+            kw['xmin'] = form(xmin)
+        if xmax is not None:
+            kw['xmax'] = form(xmax)
+        rec = {'kind': 'limits', 'gmin': xmin is not None, 'gmax': xmax is not None, 'xmin': rq(xmin if xmin is not None else F(0)),
+               'xmax': rq(xmax if xmax is not None else F(0)), 'xpos': [[rq(dmin), rq(dmax)]], 'nTrace': nt,
+               'omin': [0, 1], 'omax': [0, 1], 'oexact': False, 'grid': grid_summary(np.zeros((0, 0)), nt), 'exc': '',
+               'keywords': [repr(kw.get('xmin')), repr(kw.get('xmax'))]}
+        try:
+            t = (xy2traceset if it % 2 else TraceSet)(xpos, ypos, **kw)
+            om, ox = F(float(t.xmin)), F(float(t.xmax))
+            if all(f.denominator <= 1024 and abs(f.numerator) < 2 ** 30 for f in (om, ox)):
+                rec['omin'], rec['omax'], rec['oexact'] = rq(om), rq(ox), True
+            xg, _ = traceset2xy(t)
+            rec['grid'] = grid_summary(xg, nt)
+        except Exception as ex:
+            rec['exc'] = describe(ex)
+        recs.append(rec)
     return recs
 
 
@@ -793,7 +879,7 @@ def tset_law_records(rng, nprng, n):
         nx = rng.randint(2 * nc + 6, 60)
         width = 32 if it % 6 == 5 else 64
         dt = np.float32 if width == 32 else np.float64
-        x0 = rng.choice([0.0, 0.0, 100.0, -7.5])
+        x0 = rng.choice([0.0, 0.0, 100.0, -7.5, 40.0, -float(nx + 5)])
         xpos = np.tile(np.arange(nx, dtype=np.float64) + x0, (nt, 1))
         if it % 2:
             xpos = xpos + nprng.uniform(-0.3, 0.3, xpos.shape)
@@ -834,7 +920,12 @@ def tset_law_records(rng, nprng, n):
             kw['xjumplo'], kw['xjumphi'], kw['xjumpval'] = lo, lo + wdt, val
         if it % 7 == 0:
             kw['xmin'], kw['xmax'] = x0 - 2.0, x0 + nx + 1.5
+        elif x0 == 40.0 and it % 2:
+            kw['xmin'] = rng.choice([0, 0.0, -0.0])            # a zero limit that is not what the positions give
+        elif x0 < -nx and it % 2:
+            kw['xmax'] = rng.choice([0, 0.0, -0.0])
         info = {'basis': basis, 'nc': nc, 'nTrace': nt, 'nx': nx, 'jump': bool(jump), 'seed_index': it,
+                'limits': [repr(kw.get('xmin')), repr(kw.get('xmax'))],
                 'jumpargs': [repr(kw.get(kk)) for kk in ('xjumplo', 'xjumphi', 'xjumpval')]}
         stage = 'fitxy'
         try:
@@ -872,7 +963,7 @@ def tset_law_records(rng, nprng, n):
                     d = np.abs(t.xy(above)[1] - t.xy(above + kw['xjumpval'], ignore_jump=True)[1]).max()
                     recs.append(law('jumpabove', units(d, sc), pre=bool((above >= kw['xjumphi']).all()), **info))
             stage = 'roundtrip'
-            if width == 64 and it % 2 == 0 and 'xmin' not in kw:
+            if width == 64 and it % 2 == 0 and 'xmin' not in kw and 'xmax' not in kw:
                 # round trip on the default grid: positions -> trace set -> positions -> trace set
                 tk = {k2: v for k2, v in kw.items() if k2 in ('func', 'ncoeff', 'xjumplo', 'xjumphi', 'xjumpval')}
                 xg, yg = traceset2xy(t)
@@ -948,6 +1039,7 @@ def fixture_records(rng):
 # ----------------------------------------------------------------------------------------------
 GENERATORS = {'basis': lambda rng, nprng, n: basis_records(rng, n), 'fit': lambda rng, nprng, n: fit_records(rng, n),
               'tseval': lambda rng, nprng, n: tseval_records(rng, n), 'fit_law': fit_law_records, 'tset_law': tset_law_records,
+              'limits': lambda rng, nprng, n: limits_records(rng, n),
               'fixture': lambda rng, nprng, n: fixture_records(rng)}
 
 
@@ -961,7 +1053,7 @@ def generate(gen, n, seed):
     return recs
 
 
-WIRE_DROP = ('info', 'conv', 'exc', 'fixture', 'origin')
+WIRE_DROP = ('info', 'conv', 'exc', 'fixture', 'origin', 'keywords')
 
 
 def record_direction(ctx):
@@ -969,7 +1061,7 @@ def record_direction(ctx):
     k = 1 if ctx.quick else 8
     recs = []
     for gen, n in (('basis', 250 * k), ('fit', 200 * k), ('tseval', 120 * k), ('fit_law', 120 * k), ('tset_law', 60 * k),
-                   ('fixture', 0)):
+                   ('limits', 80 * k), ('fixture', 0)):
         recs += generate(gen, n, ctx.seed)
     wire = [{kk: v for kk, v in rec.items() if kk not in WIRE_DROP} for rec in recs]
     bad = core.validate_records(ctx, 'Trace_TraceSetPoly', wire, chunk=max(len(wire), 1))
@@ -1073,7 +1165,7 @@ def run(ctx):
                 box['tset'] = True
                 ctx.sample({'tset_case': jsonable(c), 'expected': jsonable(exp)})
             if any(v != (0, 1) for row in c['gen'] for v in row[1:]):
-                ctx.nontriv(('tset', c['basis'], c['nc'], c['xpos'], c['ypos'], c['w'], c['given'], c['xmin'], c['xmax'],
+                ctx.nontriv(('tset', c['basis'], c['nc'], c['xpos'], c['ypos'], c['w'], c['gmin'], c['gmax'], c['xmin'], c['xmax'],
                              tuple(sorted(c['jump'].items()))))
     for (basis, m), items in sorted(groups.items()):
         check_basis_group(ctx, basis, m, sorted(items))
